@@ -142,6 +142,8 @@ func (ex *Exec) freshResult(st *State, sig *types.Signature, hint string) Value 
 // knownExternal models a few pure library functions.
 func (ex *Exec) knownExternal(st *State, in ssa.Instruction, name string, args []TV, sig *types.Signature) (Value, bool) {
 	switch name {
+	case "sort.Search":
+		return ex.sortSearch(st, in, asSc(args[0].V, args[0].T).T, args[1].V), true
 	case "fmt.Sprintf", "fmt.Sprint", "fmt.Errorf", "errors.New", "fmt.Sprintln", "strconv.Itoa", "strconv.FormatUint":
 		ex.note(name + " returns an unconstrained value")
 		v := ex.freshResult(st, sig, sanitize(name))
